@@ -1,6 +1,6 @@
 (* Main.v — request dispatcher of the extracted model binary: one s-expression request per line,
    one s-expression answer per line. Definitions only. *)
-From FV Require Import Base AddrRange RouteMap Graph Netlist Hw Check Jobs.
+From FV Require Import Base AddrRange RouteMap Graph Netlist Hw Check Jobs Desc Build Paths Compile Routing Emit.
 
 Definition sx_expected (x : sx) : res (string * (Z * Z)) :=
   match x with
@@ -82,6 +82,23 @@ Definition dispatch (cmd : string) (args : list sx) : res sx :=
     match args with
     | nl :: checks => do n <- sx_netlist nl; do rs <- mapM (run_check n) checks; Ok (L rs)
     | _ => Err "chk: arity"
+    end
+  else if str_eqb cmd "model" then
+    (* (model <description tree>) -> (ok <netlist>) | (err) *)
+    match args with
+    | [x] => match run_yaml sp_nx (yv_of_sx x) with
+             | Ok n => Ok (L [A "ok"; x_netlist n])
+             | Err e => Ok (L [A "err"; A (sanitize e)])
+             end
+    | _ => Err "model: arity"
+    end
+  else if str_eqb cmd "model-graph" then
+    match args with
+    | [x] => match (do d <- parse_desc (yv_of_sx x); build d) with
+             | Ok g => Ok (L [A "ok"; x_graph g])
+             | Err e => Ok (L [A "err"; A (sanitize e)])
+             end
+    | _ => Err "model-graph: arity"
     end
   else if str_eqb cmd "nl-echo" then
     match args with [x] => do n <- sx_netlist x; Ok (x_netlist n) | _ => Err "nl-echo: arity" end
